@@ -33,11 +33,23 @@ Lemma normal_endings g :
     | ExitNone => FResult PNone
     | ExitInt n => if n =? 0 then FResult PNone else FError (PSysExit n)
     | ExitOther => FError PSysExitOther
+    | RaiseUnsendable | ReturnUnsendable => FError (POSErr (-1))
+    | HardExit n => if - n =? 15 then FResult PNone else FError (POSErr (- n))
     end.
 Proof.
   intros Hk. unfold parent_future, child_run. rewrite Hk.
-  destruct (how g) as [v|e| |n|]; cbn; try reflexivity.
+  destruct (how g) as [v|e| |n| | | |n]; cbn; try reflexivity.
   destruct (n =? 0); reflexivity.
+Qed.
+
+(* a child that ends by itself without having delivered its outcome - an outcome that cannot be pickled, os._exit - is
+   reported as an error, never as a normal return *)
+Lemma silent_child_failure_is_error g :
+  kill g = NoKill -> sendable (how g) = false -> (forall n, how g = HardExit n -> n <> -15) ->
+  exists c, parent_future g = FError (POSErr c).
+Proof.
+  intros Hk Hs Hn. rewrite (normal_endings g Hk). destruct (how g) as [v|e| |n| | | |n]; try discriminate Hs; eauto.
+  destruct (- n =? 15) eqn:E; [|eauto]. exfalso. apply (Hn n eq_refl). apply Z.eqb_eq in E. lia.
 Qed.
 
 Lemma killed_before_result g :
@@ -51,17 +63,19 @@ Qed.
 
 (* a kill after both messages were sent does not change what the parent reports *)
 Lemma killed_after_sends g :
-  kill g = KillAfter ->
+  kill g = KillAfter -> sendable (how g) = true ->
   parent_future g = parent_future {| how := how g; kill := NoKill; sig := sig g |}.
 Proof.
-  intros Hk. unfold parent_future, child_run. rewrite Hk. cbn.
-  destruct (child_plan (how g)) as [[m1 m2] code]. reflexivity.
+  intros Hk Hs. unfold parent_future, child_run. rewrite Hk. cbn.
+  destruct (how g) as [v|e| |n| | | |n]; try discriminate Hs; cbn; try reflexivity.
+  destruct (n =? 0); reflexivity.
 Qed.
 
 Lemma thread_matches_process h :
+  sendable h = true ->
   thread_future h = match parent_future {| how := h; kill := NoKill; sig := 15 |} with
                     | FResult v => FResult v | FError e => FError e | Pending => Pending end.
 Proof.
-  rewrite normal_endings by reflexivity. cbn.
-  destruct h as [v|e| |n|]; cbn; try reflexivity. destruct (n =? 0); reflexivity.
+  intros Hs. rewrite normal_endings by reflexivity. cbn.
+  destruct h as [v|e| |n| | | |n]; try discriminate Hs; cbn; try reflexivity. destruct (n =? 0); reflexivity.
 Qed.
